@@ -16,7 +16,7 @@ from symx import Explorer, Hang, HarnessError, SymStr, concretize, leak_scan
 from symx.symstr import as_z3, _or
 from . import shims
 from .common import absorb_stats, run_with_alarm
-from .nt import XSD, XSD_STRING, LANG_STRING, c_iri, c_lit, c_comment, c_lang, _free, _mismatch_expr, concretize_msg, _observed
+from .nt import _caret_fail, XSD, XSD_STRING, LANG_STRING, c_iri, c_lit, c_comment, c_lang, _free, _mismatch_expr, concretize_msg, _observed
 
 RDF_TYPE = "http://www.w3.org/1999/02/22-rdf-syntax-ns#type"
 XSD_INTEGER = XSD + "integer"
@@ -235,7 +235,7 @@ def _literal_starts_line(m):
 
 PREDICATES = {
     "custom_prefixed_datatype": lambda m: any(p["obj"]["suffix"] == "dt_pn" for p in _lits(m)),
-    "body_contains_caret_caret": lambda m: _or([_has(p["obj"]["body"], "^^") for p in _lits(m)]),
+    "body_contains_caret_caret": lambda m: _or([_caret_fail(p["obj"]["body"], False) for p in _lits(m)]),
     "typed_literal_mentions_builtin_prefix": lambda m: _or([_or(
         [_has(p["obj"]["body"], x) for x in ("xsd:", "rdf:", "dt:", "geo:")] + ([_has(p["obj"]["dt"], x) for x in ("xsd:", "rdf:", "dt:", "geo:")] if "dt" in p["obj"] else []))
         for p in _lits(m) if p["obj"]["suffix"] in ("dt_iri", "dt_xsd", "dt_pn")]),
